@@ -3,6 +3,7 @@ package minersc
 import (
 	"encoding/json"
 	"fmt"
+	"math"
 	"strings"
 	"time"
 
@@ -72,10 +73,22 @@ func (gl *GlobalSettings) update(inputMap config2.StringMap) error {
 		if !info.Mutable {
 			return fmt.Errorf("%s cannot be modified via a transaction", key)
 		}
-		_, err = config2.StringToInterface(value, info.SettingType)
+		var iValue interface{}
+		iValue, err = config2.StringToInterface(value, info.SettingType)
 		if err != nil {
 			return fmt.Errorf("%v value %v cannot be parsed as a %s",
 				key, value, config2.ConfigTypeName[info.SettingType])
+		}
+		if key == config2.GlobalSettingName[config2.TransactionMinFee] ||
+			key == config2.GlobalSettingName[config2.TransactionMaxFee] {
+			// the chain config converts fees with currency.ParseZCN
+			fee, _ := iValue.(float64)
+			if math.IsNaN(fee) || math.IsInf(fee, 0) {
+				return fmt.Errorf("%v value %v is not a valid fee", key, value)
+			}
+			if _, err := currency.ParseZCN(fee); err != nil {
+				return fmt.Errorf("%v value %v is not a valid fee: %v", key, value, err)
+			}
 		}
 		gl.Fields[key] = value
 	}
